@@ -241,3 +241,45 @@ Example ex_judge_rejects_deferred_removal :
      (KDel 1, mkKobs [ORemove 1] [] [] RetNone);
      (KSet 1 11 2500, mkKobs [OSet 1 11 2500; ORemove 1] [] [1] RetNone)] = false.
 Proof. vm_compute. reflexivity. Qed.
+
+(* ------------------------------------------------------------------ *)
+(* The delivery layer (runTasks): callbacks that do not return before later ticks.
+   [hold] = the values whose callbacks the controller keeps open until [GRelease v];
+   histories interleave calls, ticks and releases arbitrarily (Deliver.v). *)
+From GZ Require Import C12.Deliver C12.DeliverProofs.
+
+(* generic in the wheel underneath: what has been delivered plus what still waits
+   behind a blocked callback is, as a multiset, what the wheel fired *)
+Theorem delivery_layer_conserves : forall (W : Type) (stepf : W -> aop -> W * fired * res) hold ops s,
+  Permutation (concat (map fst (grun stepf hold s ops)) ++ undelivered (gfinal stepf hold s ops))
+              (undelivered s ++ concat (gfired stepf (dwheel s) ops)).
+Proof. intros W stepf hold ops s. exact (delivery_conserves stepf hold ops s). Qed.
+Print Assumptions delivery_layer_conserves.
+
+(* every wheel size, interval, hold set and history: once every gate has been opened,
+   the callbacks that ran are exactly (as a multiset: none lost, none doubled) the
+   timers the due-map fired *)
+Theorem gated_delivery_exactly_once : forall n i hold ops,
+  1 <= n -> 1 <= i ->
+  let h := ops ++ map GRelease hold in
+  Permutation (concat (map fst (grun astep hold (mkD (ainit n i) [] []) h)))
+              (concat (gfired (asp_step i) (false, []) h)).
+Proof. exact gated_exactly_once. Qed.
+Print Assumptions gated_delivery_exactly_once.
+
+(* and at every moment of every history nothing has run twice or before it fired *)
+Theorem gated_delivery_at_most_once : forall n i hold ops,
+  1 <= n -> 1 <= i ->
+  exists waiting,
+    Permutation (concat (map fst (grun astep hold (mkD (ainit n i) [] []) ops)) ++ waiting)
+                (concat (gfired (asp_step i) (false, []) ops)).
+Proof. exact gated_at_most_once. Qed.
+Print Assumptions gated_delivery_at_most_once.
+
+(* non-vacuity: a, b due at tick 1 (a held), c, d due at tick 2; b runs when a is released *)
+Example ex_gated :
+  map fst (grun astep [900] (mkD (ainit 8 10) [] [])
+    [GCall (ASet (Some 1) 900 10); GCall (ASet (Some 2) 2 10); GCall (ASet (Some 3) 3 20);
+     GCall (ASet (Some 4) 4 20); GCall ATick; GCall ATick; GRelease 900]) =
+  [[]; []; []; []; [(1, 900)]; [(3, 3); (4, 4)]; [(2, 2)]].
+Proof. vm_compute. reflexivity. Qed.
